@@ -636,9 +636,9 @@ class Impl:
             if 'values' in e.__dict__:
                 vals = list(e.values) if isinstance(e.values, (list, tuple)) else ['<%s>' % type(e.values).__name__]
                 return ' '.join(['RE', _hex_or_q(e.errName), _hex_or_q(e.message)] + [tok(v) for v in vals])
-            return 'SE ' + _hex_or_q(e.errName)
+            return 'SE'        # locally generated RemoteError: class only, its wording is not the property's
         if isinstance(e, err.TimeOut):
-            return 'TO ' + str_hex(e.args[0] if e.args and isinstance(e.args[0], str) else '?')
+            return 'TO'
         if c.get('bad'):
             return 'EXC'
         return '?' + type(e).__name__
@@ -1416,7 +1416,7 @@ def run_cvt_direct(ctx):
                 impl = '?' + tok(val)
         except error.RemoteError as e:
             raised = e
-            impl = 'SE ' + str_hex(e.errName)
+            impl = 'SE'
         except (TypeError, IndexError) as e:
             raised = e
             impl = 'PYERR'
